@@ -481,3 +481,100 @@ def fp_oracle(prog, job, out, log=print):
     out['queries'][solver] = out['queries'].get(solver, 0) + rep['allsat_queries'] + info.get('allsat_queries', 0)
     out['terms'] = TM.nterms()
     return out
+
+
+def groups_decide(prog, job, out, log=print):
+    """harness whose obligations include arithmetic over many independent bit fields (the buffer
+    length of Vector() against the capacity computed by lenVec): such obligations are hard for
+    bit-blasting, so they are decided by the group machinery: the solver enumerates the tuples of
+    the small bit-field terms below the obligation (per group, with coverage), the obligation is
+    evaluated exactly over their product; the remaining obligations go to the SMT solver as usual"""
+    import numpy as np
+    ex = engine.run_harness(prog, job['func'], max_unwind=job.get('unwind', 400), params=job.get('params'))
+    out['exec_s'] = round(ex.exec_time, 3)
+    out['stats'] = dict(ex.stats)
+    out['funcs'] = dict(ex.funcs_encoded)
+    out['inputs'] = ex.inputs
+    out['params'] = getattr(ex, 'params_used', {})
+    solver = job['solvers'][0]
+    workers = job.get('workers', 16)
+    kinds = set(job.get('group_kinds', ['growth']))
+    ignore = set(job.get('ignore_kinds', []))
+    hard = [i for i, o in enumerate(ex.obligations) if o['kind'] in kinds and o['kind'] not in ignore]
+    plain = [i for i, o in enumerate(ex.obligations) if o['kind'] not in kinds and o['kind'] not in ignore]
+    out['results'] = []
+    if plain:
+        r = engine.discharge(ex, solver, job['timeout'], only=set(plain), workers=workers)
+        out['vacuity'] = {solver: r['vacuity']}
+        out['solver_time'] = {solver: round(r['solver_time'], 3)}
+        out['queries'] = {solver: r['queries']}
+        out['nodes'] = r['nodes']
+        for rr in r['results']:
+            rec = {k: rr.get(k) for k in ('index', 'kind', 'label', 'pos', 'fn', 'status', 'model', 'reachable', 'errors')}
+            rec['time'] = round(rr['time'], 3)
+            rec['by_solver'] = {solver: rr['status']}
+            out['results'].append(rec)
+    cubes = 0
+    q = 0
+    # the obligations of one call are nested (the buffer only grows): decide the distinct ones, last first
+    seen = {}
+    pending_implied = []
+    last = hard[-1] if hard else None
+    for i in hard:
+        o = ex.obligations[i]
+        t0 = time.time()
+        if o['viol'].id in seen:
+            st = seen[o['viol'].id]
+        elif i != last and o['kind'] == 'growth' and job.get('growth_last_only', True):
+            # the buffer only grows: an intermediate length exceeding the capacity implies the final one does
+            st = None
+        else:
+            mat, domains, complete, info = tabulate.derive_keys([o['viol']], ex.assumptions, workers, lambda *a: None, maxbits=job.get('maxbits', 8), memo={}, solver=solver)
+            if mat is None or not complete:
+                st = ('unknown', str(info))
+            else:
+                cubes += info['fine_cubes']
+                q += info['allsat_queries']
+                vals = set(int(domains[0][k]) for k in mat[:, 0])
+                if vals <= {0}:
+                    st = ('unsat', None)
+                else:
+                    # a cube of the product violates it: ask the solver for a concrete input
+                    s2, m = engine_witness(ex, o['viol'], solver)
+                    st = ('sat', m) if s2 == 'sat' else (('unsat', None) if s2 == 'unsat' else ('unknown', 'witness query: ' + s2))
+            seen[o['viol'].id] = st
+        if st is None:
+            pending_implied.append(i)
+            continue
+        rec = {'index': i, 'kind': o['kind'], 'label': o['label'], 'pos': o['pos'], 'fn': o['fn'], 'status': st[0], 'time': round(time.time() - t0, 3),
+               'by_solver': {solver + '+groups': st[0]}}
+        if i == last:
+            for j in pending_implied:
+                oj = ex.obligations[j]
+                out['results'].append({'index': j, 'kind': oj['kind'], 'label': oj['label'] + ' [implied by the final length check: the buffer only grows]', 'pos': oj['pos'], 'fn': oj['fn'],
+                                       'status': st[0] if st[0] != 'sat' else 'unknown', 'time': 0.0, 'by_solver': {solver + '+groups': 'implied'}})
+        if st[0] == 'sat':
+            rec['model'] = st[1]
+        if st[0] == 'unknown':
+            rec['errors'] = [st[1]]
+        out['results'].append(rec)
+    out.setdefault('queries', {})
+    out['queries'][solver] = out['queries'].get(solver, 0) + q
+    out['tabulation'] = {'cubes': cubes, 'note': 'arithmetic obligations decided over the product of solver-enumerated bit-field groups'}
+    out['terms'] = TM.nterms()
+    return out
+
+
+def engine_witness(ex, viol, solver):
+    import solve
+    text, vars_ = TM.smt_defs(list(ex.assumptions) + [viol])
+    s = solve.Solver(solver, 300)
+    try:
+        s.send(text)
+        for a in ex.assumptions:
+            s.send('(assert %s)' % TM.name(a))
+        s.sync(extra=120)
+        st, m = s.check(TM.name(viol), want_model=True, vars_=sorted(vars_))
+        return st, m
+    finally:
+        s.close()
